@@ -20,7 +20,7 @@ PROPERTY = {
                'histories': '2..3 builds in one process with different config values / symbols; multi-line (persistently registered) code'},
     'outside': ['programs outside the templates', 'float/str symbolic data', 'other CPython versions', "code using ';' (split naively by the implementation: documented quirk)"],
     'per_split_timeout': {'quick': 600, 'thorough': 1800},
-    'wall_budget': {'quick': 900, 'thorough': 3400},
+    'wall_budget': {'quick': 1500, 'thorough': 7000},
 }
 
 CONFIG = 'a: 3\nb: 5\nzero: 0\nlst: [1, 5, 7]\nabs: 42\nnest: {k: [2, 4]}\n'
